@@ -1,5 +1,6 @@
 //! White-box helpers for `join.rs` (no obligations). Child module of `join.rs`.
 //@ file-inject: src/join.rs
+//@ file-mirror: src/join.rs :: pub fn trigger(&self) { self.state.store(false, Ordering::Release); if let Some(w) = self.to_wake.take() { w.unpark(); } }
 use super::*;
 
 pub(crate) fn panic_slot_is_some(j: &Join) -> bool {
